@@ -729,10 +729,16 @@ def scripts_for(work, binary, seed, runs, sim_num, flags=("-rehydrate", "6")):
     os.remove(os.path.join(d, "random.ndjson"))
     simf = os.path.join(d, "sim.scripts")
     nsim = ec.sim_scripts(work, sim_num, seed, simf, 5000000)
+    # the op sequences of the repository's own scenario tests (DESIGN 3.5), as scripts with the deck each test was dealt
+    rts = os.path.join(d, "repotests.scripts")
+    rt = vlib.repo_tests_trace(work, binary, os.path.join(d, "repotests.ndjson"), scripts=rts)
+    log("[scripts] repository scenario tests: %s runs recorded" % rt.get("runs"))
     both = os.path.join(d, "all.scripts")
     with open(both, "w") as f:
         f.write(open(scr).read())
         f.write(open(simf).read())
+        if os.path.exists(rts):
+            f.write(open(rts).read())
     return both, nsim
 
 
